@@ -45,9 +45,16 @@ def run_case(case):
     with wholefile.Scratch() as sc:
         try:
             p0 = wholefile.read_text(text, limit, sc)
-            w0 = wholefile.write_text(p0, sc, "w0.imcnp")
             p1 = wholefile.read_text(text, limit, sc, "in1.imcnp")
-            owners = wholefile.object_lines(wholefile.read_text(text, limit, sc, "in2.imcnp"))["data_owner"]
+            # the setting where per-cell data are printed is part of the starting state of both writes
+            for e in case.get("prefix", []):
+                edits.apply(p0, e)
+                edits.apply(p1, e)
+            w0 = wholefile.write_text(p0, sc, "w0.imcnp")
+            twin = wholefile.read_text(text, limit, sc, "in2.imcnp")
+            for e in case.get("prefix", []):
+                edits.apply(twin, e)
+            owners = wholefile.object_lines(twin)["data_owner"]
         except Exception as e:  # noqa: BLE001
             return {"skip": type(e).__name__ + ": " + str(e)[:100]}
         rng = random.Random(case["seed"])
@@ -181,8 +188,29 @@ def judge(case, r, cards):
     return res
 
 
+# fixed histories that run first (minimised from independently seeded breaking changes, see seeded/C07a)
+CORPUS_TEXT = """importances given in the data block
+1 0 -1
+2 0 -2 1 $ second shell
+3 0 -3 2
+4 0 -4 3
+5 0 4
+
+1 so 1
+2 so 2
+3 so 3
+4 so 4
+
+mode n p
+imp:n,p 1 1 1 1 0
+"""
+
+
 def gen_cases(chk):
     cases = []
+    for k in range(6):
+        cases.append({"name": f"corpus-shared-imp-{k}", "limit": 128, "text": CORPUS_TEXT, "seed": 7000 + k, "nedits": 1 + k % 2,
+                      "prefix": [["print_in_data_block", "imp", False]], "kinds": ["importance"]})
     for name, text in wholefile.fixtures():
         if any(l.lstrip().lower().startswith("read ") for l in text.split("\n")):
             continue
@@ -191,10 +219,16 @@ def gen_cases(chk):
     n = chk.pick(400, 8000)
     for i in range(n):
         r = chk.rng("gen", i)
-        gp = genprob.generate(r)
+        gp = genprob.generate(r, features=genprob.DEFAULT_FEATURES | {"lattice"}) if i % 4 == 1 else genprob.generate(r)
         limit = 80 if i % 3 == 0 else 128
         text = genprob.render(gp, r, limit=limit, style="random" if i % 2 else "plain")
         cases.append({"name": f"gen{i}", "limit": limit, "text": text, "seed": r.randrange(10**6), "nedits": 1 if i % 4 else r.randint(2, 6)})
+        if i % 5 == 0:
+            # starting state with the printing block of per-cell data switched (both writes start from it)
+            keys = [k for k in PER_CELL if r.random() < 0.4] or ["imp"]
+            cases[-1]["prefix"] = [["print_in_data_block", k, gp["placement"][k] == "cell"] for k in keys]
+            if i % 10 == 0:
+                cases[-1]["kinds"] = ["importance", "importance_all", "volume", "universe_number"]
     return cases
 
 
@@ -253,12 +287,16 @@ def run(chk):
                 text = wholefile.shrink_text(text, fails, c["limit"])
             rr = run_case(dict(c, text=text))
             chk.violation(sig, what, {"name": c["name"], "limit": c["limit"], "text": text, "seed": c["seed"], "nedits": c["nedits"],
-                                      "script": rr.get("script"), "unedited_write": rr.get("w0"), "edited_write": rr.get("w1")})
+                                      "prefix": c.get("prefix", []), "kinds": c.get("kinds"), "script": rr.get("script"), "unedited_write": rr.get("w0"), "edited_write": rr.get("w1")})
 
 
 def replay(chk, payload):
     case = payload["case"]
     c = {"name": case.get("name", "replay"), "limit": case["limit"], "text": case["text"], "seed": case.get("seed", 1), "nedits": case.get("nedits", 1)}
+    if case.get("prefix"):
+        c["prefix"] = case["prefix"]
+    if case.get("kinds"):
+        c["kinds"] = case["kinds"]
     chk.rule = "replay of one stored case"
     r = run_case(c)
     chk.note_case({"name": c["name"]})
